@@ -138,6 +138,10 @@ func vfPrio(w vfSnapLock) uint8 {
 }
 
 func vfLkStep(oracle int, nops int) {
+	// per-run state of the oracles: a native replay runs many cases in one process
+	vfStepReqId, vfUnlockRequestedId, vfLockRequestedId = [16]byte{}, [16]byte{}, [16]byte{}
+	vfUnlockFlag, vfUnlockRcount, vfLockRcount, vfLockFlag, vfLockExpried = 0, 0, 0, 0, 0
+	vfUnlockPrio, vfLockPrio = false, false
 	env := vfNewEnv(2)
 	key := vfKey(1)
 	H := vfChoice("H", 4)
